@@ -52,6 +52,7 @@ type spec struct {
 	greKey, greSeq   uint32
 	greOff           uint16
 	inner            bool // GRE carries a complete IPv4/UDP packet
+	greRt            []int // source route entry lengths (RoutingPresent when non-empty); odd lengths misalign the payload
 }
 
 var serOpts = gopacket.SerializeOptions{FixLengths: true, ComputeChecksums: true}
@@ -165,6 +166,18 @@ func (s *spec) mk() ([]gopacket.SerializableLayer, int, error) {
 		ip, _ := s.ipLayer(layers.IPProtocolGRE)
 		g := &layers.GRE{ChecksumPresent: s.greC, KeyPresent: s.greK, SeqPresent: s.greS, Key: s.greKey, Seq: s.greSeq,
 			Offset: s.greOff, Protocol: layers.EthernetType(0x88b5)}
+		if len(s.greRt) > 0 {
+			g.RoutingPresent = true
+			tail := &g.GRERouting
+			for i, n := range s.greRt {
+				ri := make([]byte, n)
+				for j := range ri {
+					ri[j] = byte(0x11*(i+1) + j)
+				}
+				*tail = &layers.GRERouting{AddressFamily: 0x0800, SREOffset: 0, SRELength: uint8(n), RoutingInformation: ri}
+				tail = &(*tail).Next
+			}
+		}
 		if s.inner {
 			g.Protocol = layers.EthernetTypeIPv4
 			iip := &layers.IPv4{Version: 4, TTL: 9, Id: s.id, Protocol: layers.IPProtocolUDP, SrcIP: net.IP{10, 0, 0, 1}, DstIP: net.IP{10, 0, 0, 2}}
@@ -243,7 +256,7 @@ func steerComputed(proto string, v int, b []byte, off int) uint16 {
 // steer rewrites one word of the spec (last aligned payload word; IPv4 header: the Id) so that the computed
 // checksum becomes target.  Returns false when the packet has no word to steer.
 func steer(s *spec, target uint16) bool {
-	if s.proto == "gre" && !s.greC {
+	if s.proto == "gre" && (!s.greC || len(s.greRt) > 0) {
 		return false
 	}
 	if s.proto == "ip4" {
@@ -479,9 +492,40 @@ func flippable(s *spec, b []byte, off int) map[string][]int {
 		if hasField(s.proto, b, off) {
 			rng("cksum", f, f+2)
 			rng("hdr", off+6, off+8)
-			rng("payload", off+8, len(b))
-		} else {
+			if len(s.greRt) == 0 {
+				rng("payload", off+8, len(b))
+			} else {
+				// the entry headers and the terminating NULL entry are structure (a flipped length makes the
+				// header undecodable, which is no checksum verdict): key, sequence number, routing information
+				// and payload stay flippable
+				q := off + 8
+				if s.greK {
+					q += 4
+				}
+				if s.greS {
+					q += 4
+				}
+				rng("hdr", off+8, q)
+				for _, n := range s.greRt {
+					rng("route", q+4, q+4+n)
+					q += 4 + n
+				}
+				rng("payload", q+4, len(b))
+			}
+		} else if len(s.greRt) == 0 {
 			rng("payload", off+4, len(b))
+		} else {
+			q := off + 8
+			if s.greK {
+				q += 4
+			}
+			if s.greS {
+				q += 4
+			}
+			for _, n := range s.greRt {
+				q += 4 + n
+			}
+			rng("payload", q+4, len(b))
 		}
 	}
 	return m
@@ -716,6 +760,11 @@ func (h *harness) randSpec(proto string, v int, maxPay int) *spec {
 		s.greC = h.r.Intn(5) != 0
 		s.greK, s.greS = h.r.Bool(), h.r.Bool()
 		s.inner = h.r.Intn(8) == 0
+		if h.r.Intn(3) == 0 {
+			for i := 1 + h.r.Intn(2); i > 0; i-- {
+				s.greRt = append(s.greRt, []int{1, 2, 3, 4, 5, 8}[h.r.Intn(6)])
+			}
+		}
 		if s.v == 4 {
 			s.ipopt = h.r.Intn(6) == 0
 		}
